@@ -23,6 +23,8 @@ pub struct DfsSpec {
     pub max_drops: u32,
     pub d: u32,
     pub max_execs: u64,
+    /// wall-clock guard: stop expanding (truncated) once past this instant
+    pub deadline: Option<std::time::Instant>,
 }
 
 #[derive(Default)]
@@ -101,7 +103,9 @@ pub fn explore(spec: &DfsSpec, judge_flags: &dyn Fn(&Scn, &Outcome) -> bool) -> 
     alts.push(Fate::Drop);
     let mut dig = vcore::Fnv::new();
     while let Some(prefix) = stack.pop() {
-        if st.execs >= spec.max_execs {
+        if st.execs >= spec.max_execs
+            || (st.execs % 256 == 255 && spec.deadline.map(|d| std::time::Instant::now() > d).unwrap_or(false))
+        {
             st.truncated = true;
             break;
         }
